@@ -602,8 +602,22 @@ class Contracts:
             st.tags['entry_fn'] = fname
             st.decide((fname, fn.line, 'entry disjunct: %s' % label))
             st.frames = [self._root_frame()]
-            outs = self.I.call_function(st, fn, args, None)
+            outs = self.split_bool_returns(self.I.call_function(st, fn, args, None))
             res.append((label, outs))
+        return res
+
+    def split_bool_returns(self, outs):
+        """a boolean returned as an undecided comparison is split into its true and false disjuncts"""
+        res = []
+        for (st, rv) in outs:
+            if isinstance(rv, Int) and rv.w == 1 and st.store.const_of(rv.a) is None:
+                s2 = st.copy()
+                for s in self.I.ops.assume(st, rv, True):
+                    res.append((s, Int(1, Aff(1))))
+                for s in self.I.ops.assume(s2, rv, False):
+                    res.append((s, Int(1, Aff(0))))
+            else:
+                res.append((st, rv))
         return res
 
     def _root_frame(self):
